@@ -22,4 +22,16 @@ pub assume_specification<'a, K, V, S, A, Q>[ std::collections::HashMap::<K, V, S
 pub assume_specification<T>[ Option::<T>::replace ](o: &mut Option<T>, value: T) -> (r: Option<T>)
     ensures *final(o) == Some(value), r == *old(o);
 
+/// Option::filter: keeps the value exactly when the predicate accepts it
+pub assume_specification<T, P: FnOnce(&T) -> bool>[ Option::<T>::filter ](o: Option<T>, predicate: P) -> (r: Option<T>)
+    requires
+        o is Some ==> predicate.requires((&o->Some_0,)),
+    ensures
+        o is None ==> r is None,
+        o is Some ==> (r == o || r is None) && (r is Some <==> predicate.ensures((&o->Some_0,), true));
+
+/// bool::then_some
+pub assume_specification<T>[ bool::then_some ](b: bool, t: T) -> (r: Option<T>)
+    ensures r == (if b { Some(t) } else { None::<T> });
+
 } // verus!
